@@ -47,9 +47,27 @@ type Faulty struct {
 	createN    int
 	failCreate map[int]int // k-th Create (1-based): 1 request lost, 2 applied but the reply is lost
 
+	delHold *Hold // a hold armed for the next Delete
+
 	createArmed  bool
 	CreateHeld   chan struct{} // closed when the held Create is parked (before it is applied)
 	CreateResume chan struct{} // close to let it go
+}
+
+// Hold is a parked call: Held is closed when the call is parked, closing Resume lets it go.
+type Hold struct {
+	After        bool // parked after the storage applied the call (its reply is delayed) instead of before
+	FailOnResume bool // the call, once let go, reports ErrInjected (a held call that was not applied is then never applied)
+	Held, Resume chan struct{}
+}
+
+// HoldNextDelete parks the next Delete before (after=false) or after it is applied.
+func (f *Faulty) HoldNextDelete(after bool) *Hold {
+	h := &Hold{After: after, Held: make(chan struct{}), Resume: make(chan struct{})}
+	f.mu.Lock()
+	f.delHold = h
+	f.mu.Unlock()
+	return h
 }
 
 // FailCreate makes the k-th (1-based) Create fail: its request is lost (applied=false) or its reply is.
@@ -163,7 +181,29 @@ func (f *Faulty) Delete(ctx context.Context, key string) error {
 	f.mu.Lock()
 	fd := f.failDelete
 	f.failDelete = 0
+	h := f.delHold
+	f.delHold = nil
 	f.mu.Unlock()
+	if h != nil {
+		if !h.After {
+			close(h.Held)
+			<-h.Resume
+			if h.FailOnResume {
+				f.log(Event{Op: "delete", Key: key, Err: ErrInjected})
+				return ErrInjected
+			}
+		}
+		err := f.Inner.Delete(ctx, key)
+		f.log(Event{Op: "delete", Key: key, Applied: true, Err: err})
+		if h.After {
+			close(h.Held)
+			<-h.Resume
+			if h.FailOnResume {
+				return ErrInjected
+			}
+		}
+		return err
+	}
 	if fd == 1 {
 		f.log(Event{Op: "delete", Key: key, Err: ErrInjected})
 		return ErrInjected
